@@ -17,7 +17,6 @@ import copy
 import fractions
 import itertools
 import os
-import pickle
 import re
 import warnings
 
@@ -153,10 +152,25 @@ def roundtrip(obj, medium, diff, what, full=True):
     return 'ok', None
 
 
+def _result(**more):
+    return dict(dict(evaluations=0, nontrivial_count=0, outcomes=set(), violations=[], samples=[]), **more)
+
+
+def _add(res, outcome, v, case, sample, nontrivial=True):
+    """Book one executed case: counts, observed outcome, at most one violation per key, first sample."""
+    res['evaluations'] += 1
+    res['nontrivial_count'] += bool(nontrivial)
+    res['outcomes'].add(outcome)
+    if v and len(res['violations']) < 20 and all(w['key'] != v['key'] for w in res['violations']):
+        res['violations'].append(dict(v, case=case))
+    if not res['samples'] and nontrivial:
+        res['samples'].append(sample)
+
+
 # ------------------------------------------------------------------ class grid and sharing scenarios
 
-def _instances(group, k, n, seed, tier):
-    return [(name, obj) for i, (name, obj) in enumerate(U.build(group, seed, tier)) if i % n == k]
+def _instances(group, k, n, seed):
+    return U.build(group, seed)[k::n]
 
 
 def check_instance(group, name, obj, medium):
@@ -168,18 +182,12 @@ def check_instance(group, name, obj, medium):
 
 def run_cls(unit):
     _, group, medium, k, n, seed, tier = unit
-    res = dict(evaluations=0, nontrivial_count=0, outcomes=set(), violations=[], samples=[])
-    for name, obj in _instances(group, k, n, seed, tier):
+    res = _result()
+    for name, obj in _instances(group, k, n, seed):
         out, v = check_instance(group, name, obj, medium)
-        if out is None:
-            continue
-        res['evaluations'] += 1
-        res['nontrivial_count'] += 1
-        res['outcomes'].add('%s:%s:%s' % (type(obj).__name__, KIND[medium], out))
-        if v and len(res['violations']) < 20 and v['key'] not in [w['key'] for w in res['violations']]:
-            res['violations'].append(dict(v, case=dict(kind='cls', group=group, name=name, medium=medium, seed=seed, tier=tier)))
-        if not res['samples']:
-            res['samples'].append(dict(group=group, instance=name, cls=type(obj).__name__, medium=medium))
+        if out is not None:
+            case = dict(kind='cls', group=group, name=name, medium=medium, seed=seed, tier=tier)
+            _add(res, '%s:%s:%s' % (type(obj).__name__, KIND[medium], out), v, case, dict(case, cls=type(obj).__name__))
     return res
 
 
@@ -214,19 +222,13 @@ def check_scenario(group, name, obj, sc_name, medium, tier):
 
 def run_share(unit):
     _, group, medium, k, n, seed, tier = unit
-    res = dict(evaluations=0, nontrivial_count=0, outcomes=set(), violations=[], samples=[])
-    for name, obj in _instances(group, k, n, seed, tier):
+    res = _result()
+    for name, obj in _instances(group, k, n, seed):
         for sc_name, _ in scenarios(obj, tier, group):
             out, v = check_scenario(group, name, obj, sc_name, medium, tier)
-            if out is None:
-                continue
-            res['evaluations'] += 1
-            res['nontrivial_count'] += 1
-            res['outcomes'].add('share:%s:%s' % (sc_name.split(':')[0], out))
-            if v and len(res['violations']) < 20 and v['key'] not in [w['key'] for w in res['violations']]:
-                res['violations'].append(dict(v, case=dict(kind='share', group=group, name=name, scenario=sc_name, medium=medium, seed=seed, tier=tier)))
-        if not res['samples']:
-            res['samples'].append(dict(group=group, instance=name, scenarios=[s for s, _ in scenarios(obj, tier, group)], medium=medium))
+            if out is not None:
+                case = dict(kind='share', group=group, name=name, scenario=sc_name, medium=medium, seed=seed, tier=tier)
+                _add(res, 'share:%s:%s' % (sc_name.split(':')[0], out), v, case, case)
     return res
 
 
@@ -235,7 +237,7 @@ def run_reflect(unit):
     instantiated itself) counts as reached through instances of its subclasses, which run its export code."""
     _, seed, tier = unit
     classes = U.exportable_classes()
-    objs = [o for g in U.GROUPS for _, o in U.build(g, seed, tier)]
+    objs = [o for g in U.GROUPS for _, o in U.build(g, seed)]
     direct = {type(o) for o in objs}
     via_subclass = {c for c in classes.values() if c not in direct and any(isinstance(o, c) for o in objs)}
     uncovered = sorted(f for f, c in classes.items() if c not in direct and c not in via_subclass)
@@ -323,8 +325,8 @@ def plain_cases():
     return out
 
 
-# the only plain data the saver is allowed to refuse (error while saving): its documentation promises a copy only
-# "provided that the save did not fail with an error"; a dict key '' passes `valid_hdf5_path_component` but is no HDF5 name
+# The only plain data the saver may refuse (error while saving; its documentation promises a copy only "provided that
+# the save did not fail with an error"): a dict key '' passes `valid_hdf5_path_component` but h5py rejects the name.
 PLAIN_MAY_REFUSE = ("gdict_key('')",)
 
 
@@ -342,18 +344,10 @@ def check_plain(label, make):
 
 def run_plain(unit):
     _, k, n = unit
-    res = dict(evaluations=0, nontrivial_count=0, outcomes=set(), violations=[], samples=[])
-    for i, (label, make) in enumerate(plain_cases()):
-        if i % n != k:
-            continue
+    res = _result()
+    for label, make in plain_cases()[k::n]:
         out, v = check_plain(label, make)
-        res['evaluations'] += 1
-        res['nontrivial_count'] += 1
-        res['outcomes'].add('plain:' + out)
-        if v and len(res['violations']) < 20 and v['key'] not in [w['key'] for w in res['violations']]:
-            res['violations'].append(dict(v, case=dict(kind='plain', label=label)))
-        if not res['samples']:
-            res['samples'].append(dict(plain=label))
+        _add(res, 'plain:' + out, v, dict(kind='plain', label=label), dict(plain=label))
     return res
 
 
@@ -369,8 +363,7 @@ def fallback_cases():
             ('np.uint64', lambda: np.uint64(2**63)), ('np.float16', lambda: np.float16(1.5))]
 
 
-# objects for which the saver may refuse (raise while saving): its documentation only promises a reconstructible copy
-# "provided that the save did not fail with an error"; everything else in the list has to come back equal.
+# Objects the saver may refuse (raise while saving, see above); everything else in the list has to come back equal.
 MAY_REFUSE = ('Fraction', 'numpy-dispatched-function', 'Ellipsis', 'np.uint64', 'np.float16')
 
 
@@ -387,14 +380,10 @@ def check_fallback(label, make):
 
 
 def run_fallback(unit):
-    res = dict(evaluations=0, nontrivial_count=0, outcomes=set(), violations=[], samples=[dict(fallback=[n for n, _ in fallback_cases()])])
+    res = _result()
     for label, make in fallback_cases():
         out, v = check_fallback(label, make)
-        res['evaluations'] += 1
-        res['nontrivial_count'] += 1
-        res['outcomes'].add('fallback:%s:%s' % (label, out))
-        if v and v['key'] not in [w['key'] for w in res['violations']]:
-            res['violations'].append(dict(v, case=dict(kind='fallback', label=label)))
+        _add(res, 'fallback:%s:%s' % (label, out), v, dict(kind='fallback', label=label), dict(fallback=[n for n, _ in fallback_cases()]))
     return res
 
 
@@ -482,22 +471,15 @@ def check_graph(spec):
 
 def run_graph(unit):
     _, n, k, nsh, tier = unit
-    res = dict(evaluations=0, states=0, transitions=0, traces=0, nontrivial_count=0, outcomes=set(), violations=[], samples=[])
-    for i, spec in enumerate(graph_specs(n, tier)):
-        if i % nsh != k:
-            continue
+    res = _result(states=0, transitions=0, traces=0)
+    for spec in itertools.islice(graph_specs(n, tier), k, None, nsh):
         out, v = check_graph(spec)
-        res['evaluations'] += 1
         res['states'] += 1
-        res['transitions'] += sum(len(kids) for _, kids in spec)
         res['traces'] += 1
+        res['transitions'] += sum(len(kids) for _, kids in spec)
         shared = any(sum(kids.count(c) for _, kids in spec) > 1 for c in list(range(n)) + ['A'])
-        res['nontrivial_count'] += bool(shared or any(_on_cycle(spec, j) for j in range(n)))
-        res['outcomes'].add('graph:' + out)
-        if v and len(res['violations']) < 10 and v['key'] not in [w['key'] for w in res['violations']]:
-            res['violations'].append(dict(v, case=dict(kind='graph', spec=[[t, list(kids)] for t, kids in spec])))
-        if not res['samples'] and shared:
-            res['samples'].append(dict(graph=[[t, list(kids)] for t, kids in spec]))
+        case = dict(kind='graph', spec=[[t, list(kids)] for t, kids in spec])
+        _add(res, 'graph:' + out, v, case, case, nontrivial=shared or any(_on_cycle(spec, j) for j in range(n)))
     return res
 
 
@@ -514,7 +496,7 @@ def replay(case):
     warnings.simplefilter('ignore')
     kind = case['kind']
     if kind in ('cls', 'share'):
-        obj = dict(U.build(case['group'], case['seed'], case['tier']))[case['name']]
+        obj = dict(U.build(case['group'], case['seed']))[case['name']]
         if kind == 'cls':
             out, v = check_instance(case['group'], case['name'], obj, case['medium'])
         else:
